@@ -71,9 +71,11 @@ def _arith(op):
             v = x + y if op == "+" else (x - y if op == "-" else x * y)
             return Cell(null, v, "i" if isint else "f", dc, kf)
         if op == "/":
-            y = C.real(b)
-            return Cell(null, C.real(a) / z3.If(y == 0, z3.RealVal(1), y), "f", zor(dc, y == 0, TRUE if isint else FALSE), kf)
-        if op in ("//", "%"):
+            return pdshim._divide(a, b)  # true division, x / 0 = +/-inf, 0 / 0 = NaN: as numpy
+        if op == "//":
+            r = pdshim._floor_divide(a, b)  # floor of the quotient, as Python / numpy
+            return Cell(null, r.val, r.kind, r.dc, kf)
+        if op == "%":
             return Cell(null, z3.IntVal(0) if isint else z3.RealVal(0), "i" if isint else "f", TRUE, kf)
         if op == "**":
             r = pdshim._power(a, b)
